@@ -316,7 +316,8 @@ def obligations(tier, seed):
         obs.append(ob_reject(2, mode, True, True, False, False, 0))
         obs.append(ob_reject(2, mode, True, False, True, True, 0))
         obs.append(ob_reject(3, mode, True, True, False, True, 0, maskpat=(0b101, 0b110)))
-        obs.append(ob_reject(3, mode, False, True, True, False, 0, maskpat=(0b111, 0b011)))
+        if not q or mode == 'sigma_array':
+            obs.append(ob_reject(3, mode, False, True, True, False, 0, maskpat=(0b111, 0b011)))
     obs.append(ob_reject(3, 'sigma_scalar', False, False, True, False, 0, maskpat=(0b110, 0b111)))
     obs.append(ob_reject(4, 'sigma_scalar', False, True, False, False, 1, use_inmask=False, maskpat=(0, 0b1111)))
     obs.append(ob_reject(4, 'sigma_array', True, False, False, True, 2, use_inmask=False, maskpat=(0, 0b1011)))
@@ -354,7 +355,10 @@ def obligations(tier, seed):
     for dtype in ('i2', 'i4', 'i8', 'u8'):
         obs.append(ob_skymask(1, 3, dtype, 1))
         obs.append(ob_skymask(1, 3, dtype, 0))
-    obs.append(ob_skymask(2, 3, 'i4', 2))
+    if not q:
+        obs.append(ob_skymask(2, 3, 'i4', 2))
+    else:
+        obs.append(ob_skymask(1, 4, 'i4', 2))
     if not q:
         obs.append(ob_skymask(1, 5, 'i4', 2))
         obs.append(ob_skymask(2, 4, 'i8', 1))
